@@ -180,13 +180,28 @@ pub fn generate(seed: u64, idx: u64) -> Scenario {
             (None, 10..=12) => {
                 // change to a document that is not open: must be ignored
                 counter += 1;
-                s.change(
-                    &uri,
-                    vec![Edit {
+                let stray = match rng.below(3) {
+                    0 => vec![Edit {
                         range: Some([0, 0, 0, 0]),
                         text: format!("// stray {counter}\n"),
                     }],
-                );
+                    // a full-text change (no range) must not bring a closed document back either
+                    1 => vec![Edit {
+                        range: None,
+                        text: doc_text(&mut rng, &mut counter, 2),
+                    }],
+                    _ => vec![
+                        Edit {
+                            range: None,
+                            text: doc_text(&mut rng, &mut counter, 1),
+                        },
+                        Edit {
+                            range: Some([1, 0, 1, 0]),
+                            text: format!("  v0 := u{counter};\n"),
+                        },
+                    ],
+                };
+                s.change(&uri, stray);
             }
             (None, 13..=15) => {
                 // a feature request for a document that is closed (or was never opened)
@@ -201,7 +216,16 @@ pub fn generate(seed: u64, idx: u64) -> Scenario {
                 let mut cur = t.clone();
                 let n = *rng.pick(&[1usize, 1, 1, 2, 3]);
                 for _ in 0..n {
-                    let e = edit_for(&mut rng, &mut counter, &cur);
+                    let e = if rng.chance(80) {
+                        // the whole text replaced (a change without range)
+                        let lines = rng.range(0, 4);
+                        Edit {
+                            range: None,
+                            text: doc_text(&mut rng, &mut counter, lines),
+                        }
+                    } else {
+                        edit_for(&mut rng, &mut counter, &cur)
+                    };
                     crate::h::client::apply_edit(&mut cur, &e);
                     edits.push(e);
                 }
